@@ -2,8 +2,15 @@
 (* Trace validation: every ndjson line recorded from the real code (harness/cmd/c07) is one independent   *)
 (* question; the answer must be what IDEAL allows, or what this instantiation (the KF_* constants set to  *)
 (* TRUE) allows - then the deviations that explain it are recorded in dev.                                *)
-(*   case  : abstract transaction t concretised on the fixture chain, res = class of State.VerifyTx       *)
-(*   mut   : accepted base t, field mutation m applied to the real protobuf, res likewise                 *)
+(*   case  : abstract transaction t concretised on the fixture chain, res = class of State.VerifyTx,      *)
+(*           sub = class of the engine entry Chain.SubmitTx ("-": not asked)                              *)
+(*   mut   : accepted base t, field mutation m applied to the real protobuf, res / sub likewise           *)
+(*   blk   : the transaction (t, or t changed by m) inside a peer block at a node whose pool is empty /   *)
+(*           holds t, applied via State.Walk / State.PlayAndRepost: res and the contents fl the state      *)
+(*           afterwards is consistent with (entry, pooled, nothing); same: the entry claims the pooled    *)
+(*           transaction's id; samec: it is the pooled transaction (real protobufs equal up to block id   *)
+(*           and reception time)                                                                          *)
+(*   fixture : the access-control rules read back from the fixture chain                      (binding)   *)
 (*   cb    : a peer block whose coinbase transaction carries rider r is confirmed and played               *)
 (*   pair  : two structures a # b of one encoder section, concretised with position-assigned values:     *)
 (*           deq / ideq = the real signing digests / ids are equal                                        *)
@@ -20,16 +27,34 @@ tvars == <<vars, l, div, dev, inex>>
 TInit == Init /\ l = 1 /\ div = NoDiv /\ dev = {} /\ inex = 0 /\ TLCSet(1, 1) /\ TLCSet(2, NoDiv) /\ TLCSet(3, {}) /\ TLCSet(4, 0)
 
 R(ok, d, exp, act) == [ok |-> ok, dev |-> d, exp |-> exp, act |-> act]
+SubOK(S, sb) == sb = "-" \/ sb \in {IF v = "soft" THEN "ok" ELSE v : v \in S}
+RuleOf(a) == [a |-> a, kind |-> RuleKind(a), acc |-> IF RuleKind(a) = "thr" THEN Accept(a) ELSE 0,
+              w |-> [i \in DOMAIN KeySeq |-> Weight(a, KeySeq[i])]]
 Explain(ev) ==
   CASE ev.op = "case" ->
-         LET i == ev.res \in AllowedIdeal(ev.t)
-             a == ev.res \in AllowedK(KC, ev.t) IN
-         R(i \/ a, IF i THEN {} ELSE DevCase(KC, ev.t, ev.res), SetToSeq(AllowedK(KC, ev.t)), ev.res)
+         LET ok(K) == ev.res \in AllowedK(K, ev.t) /\ SubOK(AllowedK(K, ev.t), ev.sub)
+             i == ok(K0)
+             a == ok(KC) IN
+         R(i \/ a, IF i THEN {} ELSE {KFName[g] : g \in {h \in Flags : KC[h] /\ ok(Only(h))}}, SetToSeq(AllowedK(KC, ev.t)), <<ev.res, ev.sub>>)
     [] ev.op = "mut" ->
          IF ~ev.applied THEN R(TRUE, {}, "-", "-")
-         ELSE LET i == ev.res \in MutAllowedK(K0, ev.t, ev.m)
-                  a == ev.res \in MutAllowedK(KC, ev.t, ev.m) IN
-              R(i \/ a, IF i THEN {} ELSE DevMut(KC, ev.t, ev.m, ev.res), SetToSeq(MutAllowedK(KC, ev.t, ev.m)), ev.res)
+         ELSE LET ok(K) == ev.res \in MutAllowedK(K, ev.t, ev.m) /\ SubOK(MutAllowedK(K, ev.t, ev.m), ev.sub)
+                  i == ok(K0)
+                  a == ok(KC) IN
+              R(i \/ a, IF i THEN {} ELSE {KFName[g] : g \in {h \in Flags : KC[h] /\ ok(Only(h))}}, SetToSeq(MutAllowedK(KC, ev.t, ev.m)), <<ev.res, ev.sub>>)
+    [] ev.op = "blk" ->
+         LET fl == Rng(ev.fl) IN
+         IF ~ev.applied THEN R(TRUE, {}, "-", "-")
+         ELSE IF ev.pooled = "refused" THEN R(~Honest(ev.t), {}, "the honest transaction is admitted to the pool", "refused by Chain.SubmitTx")
+         ELSE LET i == BlkAllowedK(K0, ev.t, ev.m, ev.pool, ev.via, ev.same, ev.samec, ev.res, fl)
+                  a == BlkAllowedK(KC, ev.t, ev.m, ev.pool, ev.via, ev.same, ev.samec, ev.res, fl) IN
+              R(i \/ a, IF i THEN {} ELSE DevBlk(KC, ev.t, ev.m, ev.pool, ev.via, ev.same, ev.samec, ev.res, fl),
+                [res |-> SetToSeq(BlkVerdicts(KC, ev.t, ev.m)), rule |-> "ok: the entry's content in effect; rej: not"], [res |-> ev.res, fl |-> ev.fl])
+    [] ev.op = "fixture" ->
+         R(/\ {r.a : r \in Rng(ev.rules)} = {x \in Accts : HasRule(x)}
+           /\ \A r \in Rng(ev.rules) : [a |-> r.a, kind |-> r.kind, acc |-> r.acc, w |-> r.w] = RuleOf(r.a) /\ {Rng(ks) : ks \in Rng(r.sets)} = KeySets(r.a)
+           /\ ev.norule = <<"G">>,
+           {}, "the rules of spec/TxAuth.tla", "other rules on the fixture chain")
     [] ev.op = "cb" ->
          R(ev.res \in {CoinbaseVerdict(K0, ev.r), CoinbaseVerdict(KC, ev.r)},
            IF ev.res = CoinbaseVerdict(K0, ev.r) THEN {} ELSE {KFName.cb}, CoinbaseVerdict(KC, ev.r), ev.res)
